@@ -60,6 +60,8 @@ def showErr : VErr → String
   | .invalidResource => "invalidResource" | .resourceMismatch => "resourceMismatch"
   | .invalidAction => "invalidAction" | .invalidJson => "invalidJson"
   | .emptyStatement => "emptyStatement" | .missingStatement => "missingStatement" | .panic => "panic"
+  | .missingPrincipal => "missingPrincipal" | .missingAction => "missingAction"
+  | .missingResource => "missingResource"
 
 def showRes : Except VErr Unit → String
   | .ok _ => "ok"
